@@ -4,11 +4,12 @@ the projected candles are compared field by field with what TLC computed."""
 from __future__ import annotations
 
 import itertools
+import os
 import sys
 from datetime import datetime, timedelta
 from fractions import Fraction
 
-sys.path.insert(0, "/repo")
+sys.path.insert(0, os.environ.get("HEXITAL_REPO", "/repo"))  # /repo unless a run snapshot is given
 
 BASE = datetime(2023, 6, 1)   # multiple of 3 s on the zone-free axis
 
